@@ -1,17 +1,9 @@
-"""Per-property configuration for /verif/check."""
+"""Per-property configuration for /verif/check: one JSON file per property (checks/Cxx.json)."""
+import glob
+import json
+import os
 
-PROPS = {
-    "C16": {
-        "props_module": "SafeNet.Props.C16",
-        "gen": ["Amount"],
-        "components": [
-            {"name": "amount", "package": "hlight", "driver": "amount", "n_quick": 5000, "n_thorough": 500000},
-        ],
-        "search": {"driver": "search-amount", "component": "amount"},
-        "rule": "seeded generator: amounts around powers of ten / two, 2^64, 2^128, 2^256-1; decimal-grammar strings with "
-                "boundary fraction lengths; malformed strings (radix prefixes, '_', signs, unicode, double dots); add/sub pairs. "
-                "A case is non-trivial if its op line is distinct (FNV-64 of the text).",
-        "trusted_base": ["ruint 1.12.3 `Uint::from_str`, `checked_add/sub/mul`, `Display` padding: modelled from source, tied by correspondence"],
-        "assumptions": ["strings are valid UTF-8 (Rust &str)"],
-    },
-}
+PROPS = {}
+for _p in sorted(glob.glob(os.path.join(os.path.dirname(os.path.abspath(__file__)), "C*.json"))):
+    _c = json.load(open(_p))
+    PROPS[_c["property_id"]] = _c
